@@ -304,6 +304,44 @@ fn havoc(rng: &mut StdRng, d: &mut Vec<u8>, other: &[u8]) {
     d.truncate(65507);
 }
 
+/// Does this entry point speak the Source flavour of the Valve protocol (whose split replies may be compressed)?
+fn source_entry(entry: &str, cfg: &Value) -> bool {
+    use gamedig::protocols::types::{ProprietaryProtocol as P, Protocol};
+    use gamedig::protocols::valve::Engine;
+    match entry {
+        "valve::query" => cfg["engine"]["t"].as_str().map_or(false, |t| t.starts_with("source")),
+        "theship::query" | "battalion1944::query" => true,
+        e => {
+            let id = e.strip_prefix("generic:").or_else(|| e.strip_prefix("module:")).unwrap_or("");
+            match GAMES.get(id).map(|g| &g.protocol) {
+                Some(Protocol::Valve(Engine::Source(_))) | Some(Protocol::PROPRIETARY(P::TheShip)) => true,
+                _ => false,
+            }
+        }
+    }
+}
+
+/// Hostile.tla `decompression_bomb`: one reply of the exchange becomes a compressed split reply (1 or 2 fragments) that
+/// declares `declared` bytes and carries a bzip2 stream of BombMiB MiB of zeros.
+fn bomb(rng: &mut StdRng, ctx: &Ctx, entry: &str, base: &mut Base, declared: u32) -> bool {
+    if !source_entry(entry, &base.cfg) {
+        return false;
+    }
+    thread_local! { static BOMB: std::cell::OnceCell<Vec<u8>> = const { std::cell::OnceCell::new() }; }
+    let body = BOMB.with(|b| b.get_or_init(|| valve::bz2_zeros(300)).clone());
+    let Some((_, batches)) = base.conns.get_mut(0) else { return false };
+    // a slot that carries a section reply (not a challenge packet)
+    let slots: Vec<usize> = batches.iter().enumerate().filter(|(_, b)| b.first().map_or(false, |d| d.len() > 9 && !(d[.. 5] == [0xff, 0xff, 0xff, 0xff, 0x41]))).map(|(i, _)| i).collect();
+    if slots.is_empty() {
+        return false;
+    }
+    let i = slots[rng.gen_range(0 .. slots.len())];
+    let k = rng.gen_range(1 ..= 2);
+    let crc: u32 = rng.gen();
+    batches[i] = valve::split_body(rng, &ctx.v, &body, declared, crc, k, false, true, true);
+    true
+}
+
 fn whole_datagram_op(rng: &mut StdRng, base: &mut Base, op: &str) -> bool {
     // choose a non-empty batch
     let mut slots = Vec::new();
@@ -482,6 +520,15 @@ pub fn structured(ctx: &Ctx, entries: &[String], seed: u64, nbases: usize, max_p
                 if m["classes"].as_array().map_or(true, |c| c.is_empty()) {
                     if op.starts_with("truncate") {
                         continue; // truncation is swept byte-wise below
+                    }
+                    if op == "decompression_bomb" {
+                        for declared in [4096u32, 8 * 1024 * 1024 - 1] {
+                            let mut b = base_for(&mut StdRng::seed_from_u64(bseed), ctx, entry);
+                            if bomb(&mut rng, ctx, entry, &mut b, declared) {
+                                run_case(&b, &json!({"stage":"structured","mutation":d,"declared":declared}), rep, trace, journal);
+                            }
+                        }
+                        continue;
                     }
                     let mut b = base_for(&mut StdRng::seed_from_u64(bseed), ctx, entry);
                     if whole_datagram_op(&mut rng, &mut b, op) {
